@@ -1,7 +1,7 @@
 CONSTANTS
-  FAMILY = "G1a_2"
+  FAMILY = "G2p_3s"
   ALLSETTINGS = FALSE
   WITHPROG = FALSE
 SPECIFICATION Spec
-INVARIANTS DesignC01 DesignC02 DesignC05 DesignC10 DesignC17 Emit
+INVARIANTS DesignC10 Emit
 CHECK_DEADLOCK TRUE
